@@ -145,6 +145,83 @@ let op_legal (fen : string) : string =
 let op_valid (fen : string) : string =
   with_fen fen (fun p -> if M.valid_position p then "1" else "0")
 
+(* ---------- game ops: "<op> <fen> | m1 m2 ..." ; one observation per position, joined by " ; " ---------- *)
+let split_game (rest : string) : string * string list =
+  match String.index_opt rest '|' with
+  | None -> (String.trim rest, [])
+  | Some i -> (String.trim (String.sub rest 0 i), words (String.sub rest (i + 1) (String.length rest - i - 1)))
+
+let obs_legal (p : M.position) : string =
+  let ms = List.sort compare (List.map (uci_of p) (M.legal_moves p)) in
+  string_of_int (List.length ms) ^ " " ^ String.concat " " ms
+
+let obs_fen (p : M.position) : string = ostr (M.fen_print p)
+
+let obs_uci (p : M.position) : string =
+  let one m =
+    let s = M.uci_print p m in
+    ostr s ^ (match M.uci_parse p s with Some m2 when m2 = m -> ":1" | _ -> ":0") in
+  String.concat " " (List.sort compare (List.map one (M.legal_moves p)))
+
+let run_game (rest : string) (obs : M.position -> string) : string =
+  let (fen, moves) = split_game rest in
+  match parse_fen fen with
+  | None -> "BAD-FEN"
+  | Some p0 ->
+    let b = Buffer.create 256 in
+    Buffer.add_string b (obs p0);
+    let p = ref p0 in
+    (try
+       List.iter (fun ms ->
+           match M.uci_parse !p (cstr ms) with
+           | None -> Buffer.add_string b " ; BAD-MOVE"; raise Exit
+           | Some m -> p := M.make_move !p m; Buffer.add_string b " ; "; Buffer.add_string b (obs !p)) moves
+     with Exit -> ());
+    Buffer.contents b
+
+let op_fen_rt (rest : string) : string =
+  let (fen, _) = split_game rest in
+  match parse_fen fen with
+  | None -> "BAD-FEN"
+  | Some p ->
+    let f1 = M.fen_print p in
+    (match M.fen_parse f1 with
+     | None -> ostr f1 ^ " | BAD | 0"
+     | Some q -> ostr f1 ^ " | " ^ ostr (M.fen_print q) ^ " | " ^ (if p = q then "1" else "0"))
+
+(* ---------- model-driven random games ---------- *)
+let lcg = ref 0
+let rnd (n : int) : int =
+  lcg := (!lcg * 2862933555777941757 + 3037000493) land max_int;
+  ((!lcg lsr 20) land 0x3fffffff) mod (max n 1)
+
+(* playout <seed> <plies> <bias> <fen> : random legal game; bias (0..9) favours special moves *)
+let op_playout (args : string list) (line : string) : string =
+  match args with
+  | seed :: plies :: bias :: _ ->
+    lcg := int_of_string seed * 7919 + 17;
+    let bias = int_of_string bias in
+    (match parse_fen (rest_after line 4) with
+     | None -> "BAD-FEN"
+     | Some p0 ->
+       let p = ref p0 and out = ref [] in
+       (try
+          for _ = 1 to int_of_string plies do
+            let ms = M.legal_moves !p in
+            if ms = [] then raise Exit;
+            let special m =
+              (match m with M.Castle _ -> true | M.Normal (_, _, Some _) -> true | _ -> false)
+              || M.is_capture !p m
+              || (let q = M.make_move !p m in q.M.ep <> None || M.in_check q.M.brd q.M.stm) in
+            let pool = if rnd 10 < bias then (match List.filter special ms with [] -> ms | l -> l) else ms in
+            let m = List.nth pool (rnd (List.length pool)) in
+            out := uci_of !p m :: !out;
+            p := M.make_move !p m
+          done
+        with Exit -> ());
+       String.concat " " (List.rev !out))
+  | _ -> "BAD-ARGS"
+
 let dispatch (line : string) : string =
   match words line with
   | [] -> ""
@@ -160,6 +237,11 @@ let dispatch (line : string) : string =
      | "minfo" -> op_minfo args
      | "legal" -> op_legal (rest_after line 1)
      | "valid" -> op_valid (rest_after line 1)
+     | "g_legal" -> run_game (rest_after line 1) obs_legal
+     | "g_fen" -> run_game (rest_after line 1) obs_fen
+     | "g_uci" -> run_game (rest_after line 1) obs_uci
+     | "fen_rt" -> op_fen_rt (rest_after line 1)
+     | "playout" -> op_playout args line
      | _ -> "UNKNOWN-OP " ^ op)
 
 let () =
